@@ -8,12 +8,12 @@ import (
 type uintptrKey = unsafe.Pointer
 
 type shadowCell struct {
-	wTid   int
-	wClk   uint32
-	wSite  string
-	rClk   [MaxThreads]uint32
-	rSite  [MaxThreads]string
-	hasW   bool
+	wTid  int
+	wClk  uint32
+	wSite string
+	rClk  [MaxThreads]uint32
+	rSite [MaxThreads]string
+	hasW  bool
 }
 
 // Race is one pair of conflicting accesses not ordered by happens-before.
